@@ -10,7 +10,7 @@ import Driver.Forcing
 open Driver
 
 def allHandlers : List (String × Handler) :=
-  chemHandlers ++ ibmHandlers ++ genHandlers ++ releaseHandlers ++ postHandlers ++ gridHandlers ++ forcingHandlers
+  chemHandlers ++ ibmHandlers ++ genHandlers ++ releaseHandlers ++ postHandlers ++ gridHandlers ++ forcingHandlers ++ nkHandlers
 
 def table : Std.HashMap String Handler := Std.HashMap.ofList allHandlers
 
